@@ -17,7 +17,7 @@ def exprs(rng, n):
     rng.shuffle(lead)
     lead = [mml.math(mml.mrow(mml.mi(ch), mml.mo("+"), mml.mn("1"))) for ch in ["б", "Б", "α", "Ω", "ℵ", "A"]] + \
            [mml.math(mml.mrow(mml.mi("x"), mml.mo("+"), mml.mi("∞"))), mml.math(mml.mrow(mml.mo("∃"), mml.mi("x"), mml.mo("="), mml.mi("∞")))] + lead
-    return lead[:18] + mml.corpus_basic()[:12] + [mml.math(mml.gen_expr(rng, rng.randrange(1, 3))) for _ in range(n)]
+    return lead[:18] + mml.corpus_basic()[:12] + mml.corpus_basic()[-2:] + [mml.math(mml.gen_expr(rng, rng.randrange(1, 3))) for _ in range(n)]
 
 
 def erase78(s):
@@ -56,7 +56,8 @@ def run(ctx):
             root, ids, leaf = ids_of(r[3]["v"])
             plain = r[4]["v"]
             speech0 = r[5]
-            styles = STYLES if ctx.tier == "thorough" else [rng.choice(STYLES[1:]), "Off"]
+            # (tables: every style also in the quick tier -- the row separator of the linear matrix layouts has dots 7-8 by itself)
+            styles = STYLES if ctx.tier == "thorough" or "<mtable" in xml else [rng.choice(STYLES[1:]), "Off"]
             for style in styles:
                 reqs = [{"op": "set_pref", "name": "BrailleNavHighlight", "value": style}]
                 pick = ids if len(ids) <= 8 or ctx.tier == "thorough" else rng.sample(ids, 8)
@@ -115,7 +116,7 @@ def run(ctx):
                     if nid is not None and nid.get("v") != [i, 0]:
                         oracle_fail.append({"why": "a braille query moved the navigation position", "id": i, "nav_id": nid.get("v"), "xml": xml, "lines": lines})
                     if hk.get("r") == "ok":
-                        mreqs.append({"op": "highlight", "code": CODES[code], "style": style, "s": hk["v"][1]})
+                        mreqs.append({"op": "highlight", "code": CODES[code], "style": style, "found": i in ids, "s": hk["v"][1]})
                         mcases.append((i, out, bp["v"] if bp is not None and bp.get("r") == "ok" else None, hk["v"][1], lines))
                 prefv, plain2, speech2 = rep[k], rep[k + 1], rep[k + 2]
                 if prefv.get("v") != style or plain2.get("v") != plain or speech2.get("v") != speech0.get("v"):
